@@ -47,10 +47,10 @@ def gen_cases(ctx):
     for i in range(ctx.share(ctx.scale(100, 8000))):
         rng = ctx.rng(4, i)
         yield {"kind": "density", "seed": int(rng.integers(1 << 31)), "kernel": kernels[i % 5],
-               "n": int(rng.choice([2, 5, 40, 300, 1000])), "data": str(rng.choice(["random", "cluster", "girdle", "axes", "bimodal"])),
+               "n": int(rng.choice([1, 2, 5, 20, 40, 300, 1000])), "data": str(rng.choice(["random", "cluster", "girdle", "axes", "bimodal"])),
                "grid": int(rng.choice([5, 11, 21, 31] if ctx.tier == "quick" else [5, 11, 31, 51, 101])),
                "sigma": float(rng.choice([3.0, 10.0, 20.0, rng.uniform(3, 20)])), "axial": bool(rng.random() < 0.7),
-               "weight": float(rng.choice([1.0, 1.0, 0.5, 3.0]))}
+               "weight": float(rng.choice([1.0, 1.0, 0.5, 3.0, 0.01, 0.1, 0.3]))}
 
 
 def check_case(ctx, case):
@@ -231,7 +231,8 @@ def _density(ctx, pydrex, case):
         C, tot = ref_density(S, d, case["grid"], case["kernel"], case["axial"], case["weight"], **kw)
         mean = tot.mean()
         norm = tot / mean
-    degenerate = not np.isfinite(mean) or abs(mean) < 1e-12 * max(1.0, float(np.abs(tot).max())) or mean <= 0
+    # a negative grid mean is not degenerate: dividing by it still yields a field of mean 1 before clipping
+    degenerate = not np.isfinite(mean) or abs(mean) < 1e-9 * max(1e-300, float(np.abs(tot).max()))
     ctx.case(case, nontrivial=not degenerate)
     if degenerate:
         ctx.count("density_degenerate_grid_mean")
